@@ -12,6 +12,9 @@ from .state import Outcome
 from .values import Bound, Builtin, ClassRef, Closure, FuncRef, ModRef, Unsupported, Val, ann_mutable
 
 MAX_PATHS = 4000
+import os as _os, time as _time
+_TRACE = bool(_os.environ.get("PYVC_TRACE"))
+_T0 = _time.time()
 
 
 def exec_block(ctx, fr, path, stmts):
@@ -38,6 +41,9 @@ def exec_stmt(ctx, fr, path, st):
     if h is None:
         raise Unsupported(f"statement {type(st).__name__} at line {st.lineno}")
     mark = len(ctx.pending_raises)
+    if _TRACE:
+        import sys, time
+        print(f"[{time.time() - _T0:7.1f}] {'  ' * len(ctx.call_stack)}{type(st).__name__}@{getattr(st, 'lineno', '?')} pc={len(path.pc)} facts={len(path.facts)} spec={ctx.spec_mode}", file=sys.stderr)
     outs = h(ctx, fr, path, st)
     # paths on which a call inside this statement raised are not continued by the expression layer
     if len(ctx.pending_raises) > mark:
